@@ -532,6 +532,9 @@ func enumerate(quick bool, emit func(*query)) {
 		for _, jk := range small(t) {
 			for t1 := range spellings {
 				for t2 := range spellings {
+					if quick && !(t2 == 0 || t2 == 1 || t2 == 2 || t2 == 6) {
+						continue // quick: T2 in {bare, quoted, db.m, MixedCase}
+					}
 					o := opts{JK: jk, T1: t1, T2: t2}
 					if q, ok := build(t, o); ok {
 						sepVariants(q, uniform, false, out("spellings", hdrFor(o)))
@@ -545,6 +548,9 @@ func enumerate(quick bool, emit func(*query)) {
 		t := &templates[ti]
 		for _, jk := range small(t) {
 			for l := 1; l < len(literals); l++ {
+				if quick && l > 6 {
+					continue // quick: the first six literals
+				}
 				for _, pos := range []int{litSelect, litWhere} {
 					o := opts{JK: jk, Lit: l, LitPos: pos}
 					if q, ok := build(t, o); ok {
